@@ -264,6 +264,14 @@ def main(argv):
                 else:
                     run.count("roundtrips_ok")
             # views on arbitrary bytes (child views are created through their parents' views)
+            if decl.get("parent_id"):
+                # the child builders are defective (KF-C14-child-builder): the views of a child are also driven with the
+                # REFERENCE encodings of its values, whatever the builder wrote
+                refseeds = []
+                for rf in refs:
+                    if rf.get("r") == "ok" and bytes.fromhex(rf["hex"]) not in refseeds:
+                        refseeds.append(bytes.fromhex(rf["hex"]))
+                seeds = refseeds + [x for x in seeds if x not in refseeds]
             strings = [("empty", b"")]
             for k in run.known:
                 w = k.get("witness", {})
